@@ -16,7 +16,7 @@ import subprocess
 import sys
 import time
 
-VERIF = '/verif'
+VERIF = os.environ.get('VERIF_DIR', '/verif')
 
 
 def run(seed_dir, check, tier, timeout):
@@ -24,14 +24,14 @@ def run(seed_dir, check, tier, timeout):
     scratch = '/tmp/seedrun/%s-%s' % (name, check)
     shutil.rmtree(scratch, ignore_errors=True)
     os.makedirs(scratch)
-    subprocess.run('cp -r /repo/placement %s/ && cd %s && git init -q . && '
+    subprocess.run('cp -r ' + os.environ.get('REPO_SRC', '/repo') + '/placement %s/ && cd %s && git init -q . && '
                    'git apply %s/patch.diff' % (scratch, scratch, seed_dir),
                    shell=True, check=True, capture_output=True)
     env = dict(os.environ, PLACEMENT_SRC=scratch, VERIF_WORKERS='5')
     t0 = time.time()
     try:
         p = subprocess.run(
-            [VERIF + '/.venv/bin/python', '-m',
+            ['/verif/.venv/bin/python', '-m',
              'checks.' + check.lower(), '--tier', tier],
             cwd=VERIF, env=env, capture_output=True, text=True,
             timeout=timeout)
@@ -54,7 +54,7 @@ def main():
     ap.add_argument('--timeout', type=int, default=1500)
     ap.add_argument('--out', default='/tmp/seed_matrix.json')
     a = ap.parse_args()
-    dirs = sorted(glob.glob(VERIF + '/seeded/[ST]*'))
+    dirs = sorted(glob.glob('/verif/seeded/[STU]*'))
     if a.seeds != 'all':
         want = a.seeds.split(',')
         dirs = [d for d in dirs if any(os.path.basename(d).startswith(w)
